@@ -114,7 +114,7 @@ fn valve_case(e: EngineCfg, which: usize, cuts: Vec<usize>, reorder: bool, dup: 
                 rv::Framing::Source {
                     cuts: cuts2.clone(),
                     compressed: false,
-                    size_field: true,
+                    size_field: true, exact_size: false,
                     id: 0x31,
                 }
             };
